@@ -192,7 +192,7 @@ def body_reframe(case, acc):
                 if norm_events(sk) != norm_events(want):
                     return V("C07:grouped-sink-content", f"generic sink {j} differs from the statements of frame {j}")
             else:
-                ws = {T.norm_stmt([T.rdflib_canon(t) for t in e]) for e in want}
+                ws = {T.norm_stmt(e) for e in want}
                 if {T.norm_stmt(s) for s in sk} != ws:
                     return V("C07:grouped-sink-content", f"rdflib sink {j} differs from the statements of frame {j}")
             wm = dict(frames[j][1])
